@@ -45,7 +45,7 @@ int vnadata_set_z0(vnadata_t *vdp, int port, double complex z0)
 	return -1;
     }
     ports = MAX(vdp->vd_rows, vdp->vd_columns);
-    if (port < 0 || port > ports) {
+    if (port < 0 || port >= ports) {
 	_vnadata_error(vdip, VNAERR_USAGE,
 		"vnadata_set_z0: invalid port index: %d", port);
 	return -1;
